@@ -256,14 +256,201 @@ fn hash(b: &[u8]) -> String {
     format!("{:016x}:{}", h, b.len())
 }
 
+// ---------------------------------------------------------------------------------------------
+// In-process command line front end (see build.rs): /repo/src/main.rs compiled as a module.
+pub mod clishim {
+    pub struct ExitStatus(pub i32);
+    pub fn exit(code: i32) -> ! {
+        std::panic::panic_any(ExitStatus(code))
+    }
+}
+
+#[allow(dead_code, unused_imports)]
+mod cli {
+    include!(concat!(env!("OUT_DIR"), "/cli_main.rs"));
+
+    /// what `fn main() -> anyhow::Result<()>` does with the command line `argv`, as an exit status
+    pub fn run(argv: Vec<String>) -> i32 {
+        let args = match Cli::try_parse_from(argv) {
+            Ok(a) => a,
+            Err(e) => {
+                eprintln!("{e}");
+                return 2;
+            }
+        };
+        if args.version {
+            println!("{}", env!("COMPLGEN_VERSION"));
+            return 0;
+        }
+        match std::panic::catch_unwind(std::panic::AssertUnwindSafe(|| aot(&args))) {
+            Ok(Ok(())) => 0,
+            Ok(Err(e)) => {
+                eprintln!("Error: {e:?}");
+                1
+            }
+            Err(p) => match p.downcast_ref::<crate::clishim::ExitStatus>() {
+                Some(s) => s.0,
+                None => 101,
+            },
+        }
+    }
+}
+
+struct Redirect {
+    saved: i32,
+    fd: i32,
+}
+
+impl Redirect {
+    fn to_file(fd: i32, path: &std::path::Path) -> Redirect {
+        use std::os::fd::IntoRawFd;
+        let f = std::fs::File::create(path).unwrap().into_raw_fd();
+        unsafe {
+            let saved = libc::dup(fd);
+            libc::dup2(f, fd);
+            libc::close(f);
+            Redirect { saved, fd }
+        }
+    }
+}
+
+impl Drop for Redirect {
+    fn drop(&mut self) {
+        unsafe {
+            libc::dup2(self.saved, self.fd);
+            libc::close(self.saved);
+        }
+    }
+}
+
+/// the script without the line that carries complgen's version (`git describe` at build time)
+fn strip_signature(b: &[u8]) -> Vec<u8> {
+    let mut out = Vec::with_capacity(b.len());
+    for line in b.split_inclusive(|c| *c == b'\n') {
+        let is_sig = line.windows(44).any(|w| w == b"generated by https://github.com/adaszko/comp");
+        if !is_sig {
+            out.extend_from_slice(line);
+        }
+    }
+    out
+}
+
+fn read_lossy(p: &std::path::Path, cap: usize) -> (String, usize) {
+    match std::fs::read(p) {
+        Ok(b) => {
+            let n = b.len();
+            let s = String::from_utf8_lossy(&b[..n.min(cap)]).to_string();
+            (s, n)
+        }
+        Err(_) => (String::new(), 0),
+    }
+}
+
+/// one run of the command line front end: files in `dir`, stdout/stderr captured through fd redirection
+fn cli_case(v: &Value, dir: &std::path::Path) -> Value {
+    let shname = v["shell"].as_str().unwrap_or("bash");
+    let opt = &v["opt"];
+    let dest_mode = opt["dest"].as_str().unwrap_or("file");
+    let inp = dir.join(opt["inname"].as_str().unwrap_or("in.usage"));
+    let bytes: Vec<u8> = match v.get("usage_b") {
+        Some(Value::Array(a)) => a.iter().map(|x| x.as_u64().unwrap_or(0) as u8).collect(),
+        _ => v["usage"].as_str().unwrap_or("").as_bytes().to_vec(),
+    };
+    if opt["input"].as_str() != Some("missing") {
+        std::fs::write(&inp, &bytes).unwrap();
+    } else {
+        let _ = std::fs::remove_file(&inp);
+    }
+    let dest = dir.join(opt["destname"].as_str().unwrap_or("out.script"));
+    let _ = std::fs::remove_file(&dest);
+    const OLD: &[u8] = b"previous content of the destination\n";
+    let dest_arg: String = match dest_mode {
+        "stdout" => "-".to_string(),
+        "existing" => {
+            std::fs::write(&dest, OLD).unwrap();
+            dest.to_string_lossy().to_string()
+        }
+        "unwritable" => dir.join("no-such-dir/out.script").to_string_lossy().to_string(),
+        _ => dest.to_string_lossy().to_string(),
+    };
+    let dfa = dir.join("out.dfa.dot");
+    let regex = dir.join("out.regex.dot");
+    let _ = std::fs::remove_file(&dfa);
+    let _ = std::fs::remove_file(&regex);
+    let mut argv: Vec<String> = vec!["complgen".into(), format!("--{shname}"), dest_arg, inp.to_string_lossy().to_string()];
+    if opt["dfa"].as_bool() == Some(true) {
+        argv.push("--dfa".into());
+        argv.push(dfa.to_string_lossy().to_string());
+    }
+    if opt["regex"].as_bool() == Some(true) {
+        argv.push("--regex".into());
+        argv.push(regex.to_string_lossy().to_string());
+    }
+    let errp = dir.join("stderr.txt");
+    let outp = dir.join("stdout.txt");
+    let t0 = std::time::Instant::now();
+    let code = {
+        let _e = Redirect::to_file(2, &errp);
+        let _o = Redirect::to_file(1, &outp);
+        let c = cli::run(argv);
+        let _ = std::io::stdout().flush();
+        c
+    };
+    let ms = t0.elapsed().as_millis() as u64;
+    let keep = opt["keep"].as_bool() == Some(true);
+    let (stderr, errlen) = read_lossy(&errp, 6000);
+    let (stdout_txt, outlen) = read_lossy(&outp, if keep { 4_000_000 } else { 0 });
+    let dest_state = if dest_mode == "stdout" || dest_mode == "unwritable" {
+        "na"
+    } else {
+        match std::fs::read(&dest) {
+            Err(_) => "absent",
+            Ok(b) if dest_mode == "existing" && b == OLD => "unchanged",
+            Ok(_) => "written",
+        }
+    };
+    let script_bytes = if dest_mode == "stdout" { std::fs::read(&outp).unwrap_or_default() } else { std::fs::read(&dest).unwrap_or_default() };
+    let tail: String = String::from_utf8_lossy(&script_bytes[script_bytes.len().saturating_sub(200)..]).to_string();
+    let mut o = json!({"exit":code,"stderr":stderr,"stderr_len":errlen,"stdout_len":outlen,"dest":dest_state,
+                       "script_len":script_bytes.len(),"script_hash":hash(&strip_signature(&script_bytes)),"script_tail":tail,"ms":ms,
+                       "dfa_exists":dfa.exists(),"regex_exists":regex.exists()});
+    if keep {
+        o["script"] = json!(String::from_utf8_lossy(&script_bytes).to_string());
+        o["stdout"] = json!(stdout_txt);
+        o["dfa"] = json!(read_lossy(&dfa, 4_000_000).0);
+        o["regex"] = json!(read_lossy(&regex, 4_000_000).0);
+    } else {
+        o["dfa_hash"] = json!(hash(&std::fs::read(&dfa).unwrap_or_default()));
+        o["regex_hash"] = json!(hash(&std::fs::read(&regex).unwrap_or_default()));
+    }
+    o
+}
+
 fn main() {
     let args: Vec<String> = std::env::args().collect();
     let mode = args.get(1).map(|s| s.as_str()).unwrap_or("compile").to_string();
     let n: usize = args.get(2).and_then(|s| s.parse().ok()).unwrap_or(3);
-    std::panic::set_hook(Box::new(|_| {}));
+    std::panic::set_hook(Box::new(|info| {
+        // exit statuses travel as panics (clishim); real panics are reported on stderr like the default hook does
+        if info.payload().downcast_ref::<clishim::ExitStatus>().is_none() {
+            let msg = info.payload().downcast_ref::<String>().cloned()
+                .or_else(|| info.payload().downcast_ref::<&str>().map(|s| s.to_string())).unwrap_or_default();
+            let loc = info.location().map(|l| format!("{}:{}:{}", l.file(), l.line(), l.column())).unwrap_or_default();
+            eprintln!("thread 'main' panicked at {loc}:\n{msg}");
+        }
+    }));
     let stdin = std::io::stdin();
-    let stdout = std::io::stdout();
-    let mut out = stdout.lock();
+    // results go to a private duplicate of fd 1, because fd 1 and 2 are redirected per case in `cli` mode
+    let mut out = unsafe {
+        use std::os::fd::FromRawFd;
+        std::fs::File::from_raw_fd(libc::dup(1))
+    };
+    let quiet = mode != "cli";
+    let _quiet_stderr = if quiet { Some(Redirect::to_file(2, std::path::Path::new("/dev/null"))) } else { None };
+    let tmpdir = std::path::PathBuf::from(args.get(2).cloned().unwrap_or_else(|| "/tmp".into())).join(format!("cli-{}", std::process::id()));
+    if mode == "cli" {
+        std::fs::create_dir_all(&tmpdir).unwrap();
+    }
     for line in stdin.lock().lines() {
         let line = line.unwrap();
         if line.trim().is_empty() {
@@ -308,10 +495,14 @@ fn main() {
                     Err(_) => json!({"same":false,"n":n,"ok":false,"panic":true,"h":""}),
                 }
             }
+            "cli" => cli_case(&v, &tmpdir),
             _ => json!({}),
         };
         v["obs"] = obs;
         writeln!(out, "{}", v).unwrap();
         out.flush().unwrap();
+    }
+    if mode == "cli" {
+        let _ = std::fs::remove_dir_all(&tmpdir);
     }
 }
